@@ -1144,6 +1144,10 @@ func (c *fnCtx) assign1(st *ast.AssignStmt, l, r ast.Expr, k func() term) term {
 		bindRaw(&pre, x.name, "go_store64 "+x.name+" "+paren(idx)+" "+paren(e))
 		return wrap(pre, k())
 	}
+	// it.c = nil / it.c = it.m.Cursor(kv) on an object field
+	if t, ok := c.objFieldStore(st, l, r, k); ok {
+		return t
+	}
 	// q.move = u on a callback field whose calls are the log
 	if c.logFieldStore(st, l, r) {
 		return k()
@@ -1464,6 +1468,9 @@ func (c *fnCtx) rangeStmt(v *ast.RangeStmt, k func() term) term {
 	{
 		var spre []fnBind
 		if rw := c.seqRange(v, &spre); rw != nil {
+			return wrap(spre, c.rangeStmt(rw, k))
+		}
+		if rw := c.objSeqRange(v, &spre); rw != nil {
 			return wrap(spre, c.rangeStmt(rw, k))
 		}
 	}
